@@ -443,3 +443,13 @@ func reaches(t reflect.Type, onPath map[reflect.Type]bool) bool {
 	}
 	return false
 }
+
+// F0: top-level values that are not structs
+func init() {
+	reg("[]byte", "F0", []byte{})
+	reg("string", "F0", "")
+	reg("int", "F0", int(0))
+	reg("time", "F0", time.Time{})
+	reg("MyBytes", "F0", MyBytes{})
+	reg("[][]byte", "F0", [][]byte{})
+}
